@@ -10,6 +10,10 @@ structure SameCtl (s t : St) : Prop where
   uIn : t.uIn = s.uIn
   dFin : t.dFin = s.dFin
   uFin : t.uFin = s.uFin
+  dGone : t.dGone = s.dGone
+  uGone : t.uGone = s.uGone
+  dStall : t.dStall = s.dStall
+  uStall : t.uStall = s.uStall
   dOut : t.dOut = s.dOut
   uOut : t.uOut = s.uOut
   cd : t.cd = s.cd
@@ -30,7 +34,8 @@ theorem SameCtl.trans {a b c : St} (h1 : SameCtl a b) (h2 : SameCtl b c) : SameC
   constructor
   all_goals first
     | (intro h; first | exact h2.dMono (h1.dMono h) | exact h2.uMono (h1.uMono h))
-    | simp [h2.dIn, h1.dIn, h2.uIn, h1.uIn, h2.dFin, h1.dFin, h2.uFin, h1.uFin, h2.dOut, h1.dOut, h2.uOut, h1.uOut,
+    | simp [h2.dIn, h1.dIn, h2.uIn, h1.uIn, h2.dFin, h1.dFin, h2.uFin, h1.uFin, h2.dGone, h1.dGone, h2.uGone, h1.uGone,
+        h2.dStall, h1.dStall, h2.uStall, h1.uStall, h2.dOut, h1.dOut, h2.uOut, h1.uOut,
         h2.cd, h1.cd, h2.cu, h1.cu, h2.chD, h1.chD, h2.chU, h1.chU, h2.chDr, h1.chDr, h2.chUr, h1.chUr,
         h2.mainDone, h1.mainDone, h2.mainRes, h1.mainRes, h2.callerDone, h1.callerDone]
 
@@ -94,12 +99,14 @@ theorem mainArm_ctl (c : Cfg) (s : St) (fromD : Bool) (r : Res) :
     (s.uClosed = true → (mainArm c s fromD r).uClosed = true) ∧
     (mainArm c s fromD r).dIn = s.dIn ∧ (mainArm c s fromD r).uIn = s.uIn ∧
     (mainArm c s fromD r).dOut = s.dOut ∧ (mainArm c s fromD r).uOut = s.uOut ∧
-    (mainArm c s fromD r).dFin = s.dFin ∧ (mainArm c s fromD r).uFin = s.uFin := by
+    (mainArm c s fromD r).dFin = s.dFin ∧ (mainArm c s fromD r).uFin = s.uFin ∧
+    (mainArm c s fromD r).dGone = s.dGone ∧ (mainArm c s fromD r).uGone = s.uGone ∧
+    (mainArm c s fromD r).dStall = s.dStall ∧ (mainArm c s fromD r).uStall = s.uStall := by
   unfold mainArm
   have h := closeAll_same s (if fromD = true then c.armD ++ (if r = .err then c.armDErr else [])
             else c.armU ++ (if r = .err then c.armUErr else []))
   simp only []
-  exact ⟨h.cd, h.cu, h.chD, h.chU, trivial, h.dMono, h.uMono, h.dIn, h.uIn, h.dOut, h.uOut, h.dFin, h.uFin⟩
+  exact ⟨h.cd, h.cu, h.chD, h.chU, trivial, h.dMono, h.uMono, h.dIn, h.uIn, h.dOut, h.uOut, h.dFin, h.uFin, h.dGone, h.uGone, h.dStall, h.uStall⟩
 
 theorem mainArm_closes (c : Cfg) (hc : c.ArmsOk) (s : St) (r : Res) :
     (mainArm c s true r).uClosed = true ∧ (mainArm c s false r).dClosed = true := by
@@ -119,67 +126,92 @@ theorem step_inv (c : Cfg) (hc : c.ArmsOk) {s s' : St} (h : Inv s) (a : Act) (hs
     simp only [step] at hs; split at hs
     · simp at hs
     · simp at hs; subst hs; exact ⟨h.chD_le, h.chD_done, h.chU_le, h.chU_done, h.main, h.notMainD, h.notMainU⟩
-  | stepD =>
-    simp only [step] at hs
-    split at hs
+  | goneDown =>
+    simp only [step] at hs; split at hs
     · simp at hs
-    · rename_i hcd
-      have hcd : s.cd = .copying := by simpa using hcd
+    · simp at hs; subst hs; exact ⟨h.chD_le, h.chD_done, h.chU_le, h.chU_done, h.main, h.notMainD, h.notMainU⟩
+  | goneUp =>
+    simp only [step] at hs; split at hs
+    · simp at hs
+    · simp at hs; subst hs; exact ⟨h.chD_le, h.chD_done, h.chU_le, h.chU_done, h.main, h.notMainD, h.notMainU⟩
+  | stallDown =>
+    simp only [step] at hs; split at hs
+    · simp at hs
+    · simp at hs; subst hs; exact ⟨h.chD_le, h.chD_done, h.chU_le, h.chU_done, h.main, h.notMainD, h.notMainU⟩
+  | stallUp =>
+    simp only [step] at hs; split at hs
+    · simp at hs
+    · simp at hs; subst hs; exact ⟨h.chD_le, h.chD_done, h.chU_le, h.chU_done, h.main, h.notMainD, h.notMainU⟩
+  | stepD =>
+    have key : ∀ t : St, s.cd ≠ .done → t.chD = s.chD → t.chU = s.chU → t.cu = s.cu → t.mainDone = s.mainDone →
+        t.dClosed = s.dClosed → t.uClosed = s.uClosed → t.cd ≠ .done → Inv t := by
+      intro t hnd e1 e2 e3 e4 e5 e6 e7
       have hch : s.chD = 0 := by
-        have := h.chD_le; have := h.chD_done
         rcases Nat.lt_or_ge s.chD 1 with h0 | h1
         · omega
-        · have : s.chD = 1 := by omega
-          have := h.chD_done this; simp_all
-      have key : ∀ t : St, t.chD = s.chD → t.chU = s.chU → t.cu = s.cu → t.mainDone = s.mainDone →
-          t.dClosed = s.dClosed → t.uClosed = s.uClosed → t.cd ≠ .done → Inv t := by
-        intro t e1 e2 e3 e4 e5 e6 e7
-        refine ⟨by rw [e1]; exact h.chD_le, by rw [e1, hch]; simp, by rw [e2]; exact h.chU_le,
-          by rw [e2, e3]; exact h.chU_done, ?_, by intro _ hd; exact absurd hd e7, by rw [e4, e3, e2]; exact h.notMainU⟩
-        rw [e4, e5, e6, e3, e2, e1]
-        intro hm
-        rcases h.main hm with hl | hr
-        · simp [hcd] at hl
-        · exact Or.inr hr
-      split at hs
-      · simp at hs; subst hs; exact key _ rfl rfl rfl rfl rfl rfl (by simp)
-      · split at hs
-        · split at hs
-          · simp at hs; subst hs; exact key _ rfl rfl rfl rfl rfl rfl (by simp)
-          · simp at hs; subst hs; exact key _ rfl rfl rfl rfl rfl rfl (by simp [hcd])
-        · split at hs
-          · simp at hs; subst hs; exact key _ rfl rfl rfl rfl rfl rfl (by simp)
-          · simp at hs
-  | stepU =>
+        · have : s.chD = 1 := by have := h.chD_le; omega
+          exact absurd (h.chD_done this) hnd
+      refine ⟨by rw [e1]; exact h.chD_le, by rw [e1, hch]; simp, by rw [e2]; exact h.chU_le,
+        by rw [e2, e3]; exact h.chU_done, ?_, by intro _ hd; exact absurd hd e7, by rw [e4, e3, e2]; exact h.notMainU⟩
+      rw [e4, e5, e6, e3, e2, e1]
+      intro hm
+      rcases h.main hm with hl | hr
+      · exact absurd hl.2.1 hnd
+      · exact Or.inr hr
     simp only [step] at hs
     split at hs
+    · rename_i hcd
+      have hnd : s.cd ≠ .done := by simp [hcd]
+      split at hs
+      · simp at hs; subst hs; exact key _ hnd rfl rfl rfl rfl rfl rfl (by simp)
+      · split at hs
+        · simp at hs; subst hs; exact key _ hnd rfl rfl rfl rfl rfl rfl (by simp)
+        · split at hs
+          · simp at hs; subst hs; exact key _ hnd rfl rfl rfl rfl rfl rfl (by simp)
+          · simp at hs
+    · rename_i chunk hcd
+      have hnd : s.cd ≠ .done := by simp [hcd]
+      split at hs
+      · simp at hs; subst hs; exact key _ hnd rfl rfl rfl rfl rfl rfl (by simp)
+      · split at hs
+        · simp at hs
+        · simp at hs; subst hs; exact key _ hnd rfl rfl rfl rfl rfl rfl (by simp)
     · simp at hs
-    · rename_i hcu
-      have hcu : s.cu = .copying := by simpa using hcu
+  | stepU =>
+    have key : ∀ t : St, s.cu ≠ .done → t.chD = s.chD → t.chU = s.chU → t.cd = s.cd → t.mainDone = s.mainDone →
+        t.dClosed = s.dClosed → t.uClosed = s.uClosed → t.cu ≠ .done → Inv t := by
+      intro t hnd e1 e2 e3 e4 e5 e6 e7
       have hch : s.chU = 0 := by
         rcases Nat.lt_or_ge s.chU 1 with h0 | h1
         · omega
         · have : s.chU = 1 := by have := h.chU_le; omega
-          have := h.chU_done this; simp_all
-      have key : ∀ t : St, t.chD = s.chD → t.chU = s.chU → t.cd = s.cd → t.mainDone = s.mainDone →
-          t.dClosed = s.dClosed → t.uClosed = s.uClosed → t.cu ≠ .done → Inv t := by
-        intro t e1 e2 e3 e4 e5 e6 e7
-        refine ⟨by rw [e1]; exact h.chD_le, by rw [e1, e3]; exact h.chD_done, by rw [e2]; exact h.chU_le,
-          by rw [e2, hch]; simp, ?_, by rw [e4, e3, e1]; exact h.notMainD, by intro _ hd; exact absurd hd e7⟩
-        rw [e4, e5, e6, e3, e2, e1]
-        intro hm
-        rcases h.main hm with hl | hr
-        · exact Or.inl hl
-        · simp [hcu] at hr
+          exact absurd (h.chU_done this) hnd
+      refine ⟨by rw [e1]; exact h.chD_le, by rw [e1, e3]; exact h.chD_done, by rw [e2]; exact h.chU_le,
+        by rw [e2, hch]; simp, ?_, by rw [e4, e3, e1]; exact h.notMainD, by intro _ hd; exact absurd hd e7⟩
+      rw [e4, e5, e6, e3, e2, e1]
+      intro hm
+      rcases h.main hm with hl | hr
+      · exact Or.inl hl
+      · exact absurd hr.2.1 hnd
+    simp only [step] at hs
+    split at hs
+    · rename_i hcu
+      have hnd : s.cu ≠ .done := by simp [hcu]
       split at hs
-      · simp at hs; subst hs; exact key _ rfl rfl rfl rfl rfl rfl (by simp)
+      · simp at hs; subst hs; exact key _ hnd rfl rfl rfl rfl rfl rfl (by simp)
       · split at hs
+        · simp at hs; subst hs; exact key _ hnd rfl rfl rfl rfl rfl rfl (by simp)
         · split at hs
-          · simp at hs; subst hs; exact key _ rfl rfl rfl rfl rfl rfl (by simp)
-          · simp at hs; subst hs; exact key _ rfl rfl rfl rfl rfl rfl (by simp [hcu])
-        · split at hs
-          · simp at hs; subst hs; exact key _ rfl rfl rfl rfl rfl rfl (by simp)
+          · simp at hs; subst hs; exact key _ hnd rfl rfl rfl rfl rfl rfl (by simp)
           · simp at hs
+    · rename_i chunk hcu
+      have hnd : s.cu ≠ .done := by simp [hcu]
+      split at hs
+      · simp at hs; subst hs; exact key _ hnd rfl rfl rfl rfl rfl rfl (by simp)
+      · split at hs
+        · simp at hs
+        · simp at hs; subst hs; exact key _ hnd rfl rfl rfl rfl rfl rfl (by simp)
+    · simp at hs
   | sendD =>
     simp only [step] at hs
     split at hs
